@@ -29,7 +29,7 @@ def coef(i, j):
 class World(object):
 
     def __init__(self, scn):
-        from glue.core import Data, DataCollection
+        from glue.core import Data, DataCollection, ComponentID
         from glue.core.component_link import ComponentLink
         from glue.core.link_helpers import LinkSame, LinkTwoWay, MultiLink
         self.violations = []
@@ -61,6 +61,16 @@ class World(object):
         self.coef['g0'] = coef(0, 0)
         self.internal = [(['c00'], 'g0', 0.0)]       # atomic links owned by a dataset (active while it is in the collection)
         self.derived_of = {'c00': ['g0']}
+        # ... and an internal derived attribute defined by an INVERTIBLE link (h0 from c01, with an inverse
+        # function): whoever reaches h0 also reaches c01 through the inverse of the dataset's own link
+        self.coef['h0'] = (3.0, -2.0)
+        (ha, hb), (ca, cb) = self.coef['h0'], coef(0, 1)
+        hlink = ComponentLink([self.cid['c01']], ComponentID('h0', parent=self.D[0]),
+                              using=lambda x: (x - cb) / ca * ha + hb, inverse=lambda y: (y - hb) / ha * ca + cb)
+        self.cid['h0'] = self.D[0].add_component_link(hlink).link.get_to_id()
+        self.internal.append((['c01'], 'h0', 0.0))
+        self.internal_inv = [(['h0'], 'c01', None)]
+        self.derived_of['c01'] = ['h0']
         self.owner = {name: int(name[1]) for name in self.cid}
         self.present = set(self.cid)          # components currently in their dataset
         self.inv_cid = {id(c): n for n, c in self.cid.items()}
@@ -116,6 +126,7 @@ class World(object):
         self.atoms['k'] = [(['g0'], 'c21', 0.0), (['c21'], 'g0', 0.0)]
         one('x', 'c01', 'c20', bias=100.0)
         one('y', 'c10', 'c20')
+        one('z', 'c21', 'h0')                                    # one-way d2 -> the invertibly derived attribute
         self.names = scn.link_names
         self.dc = DataCollection(list(self.D))
         self.in_dc = set(range(n))
@@ -145,7 +156,7 @@ class Scenario(object):
         for cn in self.comps:
             if cn in w.present:
                 ops.append(['rm_comp', cn])
-            elif cn not in ('g0',):        # a removed derived attribute is not re-created
+            elif cn not in ('g0', 'h0'):   # a removed derived attribute is not re-created
                 ops.append(['add_comp', cn])
         for i in self.data:
             ops.append(['rm_data' if i in w.in_dc else 'add_data', i])
@@ -206,7 +217,7 @@ class Scenario(object):
         for n in w.registered:
             atoms.extend(w.atoms[n])
         derived = set(dst for _, dst, _ in w.internal)
-        for src, dst, bias in w.internal:
+        for src, dst, bias in w.internal + w.internal_inv:
             if w.owner[dst] in w.in_dc and dst in w.present and all(x in w.present for x in src):
                 atoms.append((src, dst, bias))
         known = {}
@@ -309,12 +320,14 @@ def tiers(tier):
         return [('exact3', Scenario(3, ['a', 'b', 'c', 'd', 'e', 'f', 'g'], comps=('c11', 'n0'), data=(1, 2)), 6),
                 ('detour', Scenario(3, ['a', 'x', 'y', 'b'], comps=('c10',), data=(1,), delay=False), 7),
                 ('multi', Scenario(3, ['m', 'a', 'b', 'c'], comps=('c01', 'c20'), data=(2,), delay=False), 5),
-                ('derived', Scenario(3, ['k', 'c', 'e'], comps=('c00', 'g0', 'c21'), data=(0, 2), delay=False), 5)]
+                ('derived', Scenario(3, ['k', 'c', 'e'], comps=('c00', 'g0', 'c21'), data=(0, 2), delay=False), 5),
+                ('derived-inv', Scenario(3, ['z', 'k', 'e'], comps=('c01', 'h0'), data=(0, 2), delay=False), 5)]
     return [('exact3', Scenario(3, ['a', 'b', 'c', 'd', 'e', 'f', 'g'], comps=('c11', 'n0', 'c20'), data=(0, 1, 2)), 6),
             ('exact4', Scenario(4, ['a', 'b', 'c', 'd', 'e', 'f', 'g', 'h', 'i', 'j'], comps=('c11',), data=(1, 3)), 5),
             ('detour', Scenario(3, ['a', 'x', 'y', 'b', 'e'], comps=('c10', 'c01'), data=(1, 2)), 7),
             ('multi', Scenario(3, ['m', 'a', 'b', 'c', 'f'], comps=('c01', 'c20', 'c11'), data=(1, 2)), 6),
-            ('derived', Scenario(3, ['k', 'c', 'e', 'a'], comps=('c00', 'g0', 'c21'), data=(0, 2)), 6)]
+            ('derived', Scenario(3, ['k', 'c', 'e', 'a'], comps=('c00', 'g0', 'c21'), data=(0, 2)), 6),
+            ('derived-inv', Scenario(3, ['z', 'k', 'e', 'b'], comps=('c01', 'h0', 'c21'), data=(0, 2)), 6)]
 
 
 def run(tier):
